@@ -29,20 +29,8 @@ func isASCIIDigit(r rune) bool {
 	return r >= '0' && r <= '9'
 }
 
-func isASCIIUpperAlpha(r rune) bool {
-	return r >= 'A' && r <= 'Z'
-}
-
-func isASCIILowerAlpha(r rune) bool {
-	return r >= 'a' && r <= 'z'
-}
-
 func isASCIIAlpha(r rune) bool {
 	return (r >= 'a' && r <= 'z') || (r >= 'A' && r <= 'Z')
-}
-
-func isASCIIAlphanumeric(r rune) bool {
-	return (r >= 'a' && r <= 'z') || (r >= 'A' && r <= 'Z') || (r >= '0' && r <= '9')
 }
 
 func isHexDigit(r rune) bool {
@@ -56,11 +44,6 @@ func isOctalDigit(r rune) bool {
 // isSchemeCP: ASCII alphanumeric, U+002B (+), U+002D (-) or U+002E (.).
 func isSchemeCP(r rune) bool {
 	return (r >= 'a' && r <= 'z') || (r >= 'A' && r <= 'Z') || (r >= '0' && r <= '9') || r == '+' || r == '-' || r == '.'
-}
-
-// isC0Control: U+0000 - U+001F.
-func isC0Control(r rune) bool {
-	return r >= 0 && r <= 0x1F
 }
 
 // isC0ControlOrSpace: U+0000 - U+0020.
@@ -239,18 +222,23 @@ func utf8Bytes(r rune) []byte {
 	return out
 }
 
-// UTF8PercentEncodeRune: the code point itself (as UTF-8) if it is not in the
-// set, otherwise %HH for each byte of its UTF-8 encoding.
-func UTF8PercentEncodeRune(r rune, set int) string {
+// percentEncodeRune is %HH for each byte of the UTF-8 encoding of r.
+func percentEncodeRune(r rune) string {
 	b := utf8Bytes(r)
-	if !InSet(set, r) {
-		return string(b)
-	}
 	out := ""
 	for i := 0; i < len(b); i++ {
 		out = out + percentEncodeByte(b[i])
 	}
 	return out
+}
+
+// UTF8PercentEncodeRune: the code point itself (as UTF-8) if it is not in the
+// set, otherwise %HH for each byte of its UTF-8 encoding.
+func UTF8PercentEncodeRune(r rune, set int) string {
+	if !InSet(set, r) {
+		return string(utf8Bytes(r))
+	}
+	return percentEncodeRune(r)
 }
 
 // utf8PercentEncodeRunes applies UTF8PercentEncodeRune to every code point.
@@ -275,7 +263,7 @@ func PercentDecode(s string) string {
 	i := 0
 	for i < len(s) {
 		b := s[i]
-		if b == '%' && i+2 < len(s) &&isHexDigit(rune(s[i+1])) && isHexDigit(rune(s[i+2])) {
+		if b == '%' && i+2 < len(s) && isHexDigit(rune(s[i+1])) && isHexDigit(rune(s[i+2])) {
 			v := hexValue(rune(s[i+1]))*16 + hexValue(rune(s[i+2]))
 			out = append(out, byte(v))
 			i = i + 3
@@ -288,19 +276,6 @@ func PercentDecode(s string) string {
 }
 
 // ---- small string helpers -------------------------------------------------------
-
-// asciiLowerString lower-cases the ASCII upper alphas of s.
-func asciiLowerString(s string) string {
-	out := make([]byte, len(s))
-	for i := 0; i < len(s); i++ {
-		b := s[i]
-		if b >= 'A' && b <= 'Z' {
-			b = b + 0x20
-		}
-		out[i] = b
-	}
-	return string(out)
-}
 
 // itoa is the shortest decimal representation of a non-negative integer.
 func itoa(n int) string {
